@@ -47,8 +47,6 @@ CAP = 4096
 KNOWN_TABS = ("F13 output shown without colour and JUnit system-out/system-err lose TAB, CR and other "
               "C0/C1 control characters that are valid in XML and are not ANSI escapes (strip-ansi-escapes "
               "drops every control character except LF)")
-KNOWN_XML = ("F14 JUnit report is not well-formed XML when a test prints U+FFFE or U+FFFF (quick-junit "
-             "removes C0 controls only)")
 
 
 # ------------------------------------------------------------------------------------------------
@@ -119,7 +117,7 @@ def fused_cases(r, thorough):
             for v in variants:
                 cases.append(dict(mode="fused", script=v, calls=len(v) + 2))
     sizes = [1, 100, 4095, 4096, 4097, 8191, 8192, 8193, 12289, 20000, 40000, 65536]
-    for i in range(60 if thorough else 14):
+    for i in range(80 if thorough else 24):
         script, total = [], 0
         for _ in range(r.randint(1, 6)):
             sz = r.choice(sizes)
@@ -138,6 +136,9 @@ def fused_cases(r, thorough):
             script.append(["g", r.randrange(1, 1 << 30), 10])
         calls = sum((len(item_bytes(it)) + CAP - 1) // CAP for it in script) + len(script) + 2
         cases.append(dict(mode="fused", script=script, calls=calls))
+    # more than 64 KiB through one reader
+    big = [["g", 11, 40000], ["p"], ["g", 12, 40000]]
+    cases.append(dict(mode="fused", script=big, calls=26))
     r.shuffle(cases)   # spread the large cases over the coqc shards
     return cases
 
@@ -252,7 +253,7 @@ def accumulator_cases(r, thorough):
     for cap in ((True, False), (False, True), (False, False)):
         cases.append(pipe_case(r, "split", [["w", 0, "0102"]], [["w", 1, "0304"]], capture=cap))
     sizes = [0, 1, 100, 4095, 4096, 4097, 8192, 8193, 12289, 20000, 30000]
-    for _ in range(80 if thorough else 16):
+    for _ in range(100 if thorough else 24):
         ws = [[], []]
         budget = 60000
         for s in (0, 1):
@@ -650,7 +651,7 @@ def fixed_runs(start):
                                                  "final_stderr": hx(b"err2"), "exit": 1}],
                                           "big": [{"stdout": {"seed": 5, "size": 70000, "ascii": True}, "stderr": {"seed": 6, "size": 3, "ascii": True}, "exit": 0}]},
                   flavour="combined"),
-        # witnesses of the two known findings
+        # witness of the known finding F13 and regression witness of the repaired F14
         fixed_run(start + 5, "witness-F13", {"tabs": [{"stdout": hx(b"col1\tcol2\r\nend\n"), "exit": 1}]}),
         fixed_run(start + 6, "witness-F14", {"nonchar": [{"stdout": hx("x￿y\n".encode()), "exit": 1}]}),
     ]
@@ -665,7 +666,7 @@ def terminate_run(idx):
         "term_stdout": {"seed": 78, "size": 300000, "mode": "bursts", "burst": 50000},
         "term_stderr": {"seed": 79, "size": 70000}, "terminated": True, "term_exit": 1}]}, flavour="mixed")
     run["config"] = run["config"].replace("fail-fast = false\n", "fail-fast = false\n"
-                                          'slow-timeout = { period = "1s", terminate-after = 1, grace-period = "20s" }\n')
+                                          'slow-timeout = { period = "1s", terminate-after = 1, grace-period = "45s" }\n')
     return run
 
 
@@ -764,13 +765,21 @@ def oracle_run(run, res):
         for st in sts:
             k = st["attempt"]
             beh = atts[min(k, len(atts)) - 1]
-            if beh.get("terminated") and not any(
-                    rec.get("ev") == "end" and rec.get("test") == name and rec.get("attempt") == k
-                    and str(rec.get("how", "")).startswith("exit-on-signal") for rec in res["log"]):
-                # the process died before its handler ran to the end (overloaded machine): what it
-                # wrote is unknown, nothing to compare
-                cnt["inconclusive"] = cnt.get("inconclusive", 0) + 1
-                continue
+            if beh.get("terminated"):
+                recs = [rec for rec in res["log"] if rec.get("test") == name and rec.get("attempt") == k]
+                got_sig = any(rec.get("ev") == "sig" and rec.get("who") == "test" for rec in recs)
+                ended = any(rec.get("ev") == "end" and str(rec.get("how", "")).startswith("exit-on-signal")
+                            for rec in recs)
+                if got_sig and not ended:
+                    fails.append(f"{b} {name} attempt {k}: the test received the termination signal and began "
+                                 f"writing {len(spec_bytes(beh.get('term_stdout')))} + "
+                                 f"{len(spec_bytes(beh.get('term_stderr')))} bytes but could not finish within the "
+                                 f"grace period: its output was no longer being read")
+                    continue
+                if not ended:
+                    # died before its handler was installed (overloaded machine): nothing to compare
+                    cnt["inconclusive"] = cnt.get("inconclusive", 0) + 1
+                    continue
             out, err = attempt_bytes(beh)
             o = st["output"]
             cnt["attempts"] = cnt.get("attempts", 0) + 1
@@ -797,15 +806,10 @@ def oracle_run(run, res):
 
     # ---- JUnit
     path = os.path.join(res["junit_dir"], run["profile"], "junit.xml")
-    xml_bad_chars = any(re.search("[￾￿]", ANSI_RE.sub("", lossy(w))) for w in expected_streams)
     try:
         root = ET.parse(path).getroot()
     except (ET.ParseError, OSError) as ex:
-        if isinstance(ex, ET.ParseError) and xml_bad_chars:
-            known.append(KNOWN_XML)
-            root = None
-        else:
-            return [f"JUnit report {path} is not well-formed XML / missing: {ex}"], known, cnt
+        return [f"JUnit report {path} is not well-formed XML / missing: {ex}"], known, cnt
     if root is not None:
         cnt["junit_parsed"] = 1
         cases = {}
@@ -962,8 +966,8 @@ def run(tier, seed):
     runs = fixed_runs(0)
     runs.append(leak_run(len(runs)))
     runs.append(terminate_run(len(runs)))
-    plan = (["mixed"] * 5 + ["text"] * 5 + ["colour"] * 2 + ["combined"] * 2 + ["big"] * 1) if not thorough else \
-           (["mixed"] * 50 + ["text"] * 60 + ["colour"] * 25 + ["combined"] * 25 + ["big"] * 12)
+    plan = (["mixed"] * 8 + ["text"] * 8 + ["colour"] * 3 + ["combined"] * 3 + ["big"] * 2) if not thorough else \
+           (["mixed"] * 100 + ["text"] * 120 + ["colour"] * 50 + ["combined"] * 50 + ["big"] * 24)
     for fl in plan:
         runs.append(gen_run(r, len(runs), fl, thorough))
     vlib.log(f"[C16] rig ready {time.time() - chk.t0:.1f}s")
